@@ -1140,6 +1140,10 @@ func TestVerifHook(t *testing.T) {
 	bindir, _ := os.MkdirTemp("", "verifbin")
 	defer os.RemoveAll(bindir)
 	haveBare := os.Symlink(os.Args[0], bindir+"/"+bare) == nil
+	/* programs whose very names read like placeholders: the program name is never substituted */
+	for _, odd := range []string{"%url", "%mimetype", "%subtype", "%supertype"} {
+		haveBare = haveBare && os.Symlink(os.Args[0], bindir+"/"+odd) == nil
+	}
 	if haveBare {
 		os.Setenv("PATH", bindir+":"+os.Getenv("PATH"))
 	}
@@ -1147,6 +1151,9 @@ func TestVerifHook(t *testing.T) {
 		program := os.Args[0]
 		if haveBare && hi%2 == 1 && os.Getenv("VERIF_HOOK_FROM_CONFIG") == "" {
 			program = bare
+			if hi%6 == 5 {
+				program = []string{"%url", "%mimetype", "%subtype", "%supertype"}[(hi/6)%4]
+			}
 		}
 		hook := append([]string{program, "--verif-hook"}, args...)
 		if os.Getenv("VERIF_HOOK_FROM_CONFIG") != "" {
@@ -1156,7 +1163,22 @@ func TestVerifHook(t *testing.T) {
 		} else {
 			config.Parsed.Media.Hook = hook
 		}
-		for _, page := range []string{postURL, actorURL} {
+		/* posts that are media by their kind, with links that do not say what they are: the kind of the post says it */
+		kinds := map[string][2]string{}
+		for _, kd := range [][3]string{{"/notes/hv", "Video", "video"}, {"/notes/ha", "Audio", "audio"}, {"/notes/hi", "Image", "image"}} {
+			target := w.h.URL("/media/raw " + kd[2])
+			var links any = map[string]any{"type": "Link", "href": target}
+			if kd[1] == "Audio" {
+				links = []any{map[string]any{"type": "Link", "href": target}, map[string]any{"type": "Link", "href": w.h.URL("/media/other")}}
+			}
+			w.put(kd[0], map[string]any{"type": kd[1], "name": kd[2], "published": "2024-01-01T00:00:00Z", "content": "<p>plain</p>", "url": links})
+			kinds[w.h.URL(kd[0])] = [2]string{verifNormal(target), kd[2]}
+		}
+		pages := []string{postURL, actorURL}
+		if hi%3 == 0 {
+			pages = append(pages, w.h.URL("/notes/hv"), w.h.URL("/notes/ha"), w.h.URL("/notes/hi"))
+		}
+		for _, page := range pages {
 			sid++
 			v := verifNewSession(w, out, sid, false)
 			if err := v.s.Subcommand("open", page); err != nil || !v.settle(8*time.Second) {
@@ -1197,6 +1219,9 @@ func TestVerifHook(t *testing.T) {
 				if link, mt, present := post.Media(); present {
 					p := mtOf(link, mt.Essence, mt.Supertype, mt.Subtype, true)
 					p.link = verifNormal(w.h.URL("/media/big file.mp4"))
+					if kd, byKind := kinds[page]; byKind {
+						p = mtOf(kd[0], kd[1]+"/*", kd[1], "*", true)
+					}
 					p.keys = "o"
 					probes = append(probes, p)
 				}
